@@ -65,7 +65,7 @@ def run(res):
     # processor references
     P = wc.procs({'p1': ('P1', ()), 'p1b': ('P1', ()), 'p2': ('P2', ()), 'q': ('Q', ())},
                  {'P1': ((), 0), 'P2': (('P1',), 0), 'Q': ((), 5)})
-    K2 = wc.base(Acts={'proc', 'process'}, Ids={1}, MaxAuto=1, Types={'A'}, Bases={'A': set()}, Prios=set(), **P)
+    K2 = wc.base(Acts={'proc', 'process'}, Ids={1}, MaxAuto=1, Types={'A'}, Bases={'A': set()}, Prios={3}, **P)
     replay_via(res, 'c19_processors', K2, wc.OWN['C07'], depth_all=3, walks=5000 if th else 1000)
     # Prototype: every combination of construction sources
     n = 3 if th else 2
